@@ -458,13 +458,18 @@ class Status:
         # Tuple conversion just to supress an error detection ...
         fileData = dict(tuple([el.split('=', 1) for el in fileData if el.find('=') != -1]))
 
-        # VV: here we are reversing the encodings we performed in self.writeToStream
-        if 'error-description' in fileData:
-            fileData['error-description'] = fileData['error-description'].encode('utf-8').decode('unicode_escape')
+        # VV: here we are reversing the encodings we performed in self.writeToStream. The description is free text:
+        # set it after the constructor, which strips leading/trailing whitespace (e.g. a final new line) off values
+        error_description = fileData.pop('error-description', None)
 
         # FIXME: StageWeights need to be written to file??
         # Or set by StatusMonitor on restart??
-        return Status(filename, fileData, ast.literal_eval(fileData['stages']))
+        status = Status(filename, fileData, ast.literal_eval(fileData['stages']))
+
+        if error_description is not None:
+            status.setErrorDescription(error_description.encode('utf-8').decode('unicode_escape'))
+
+        return status
 
     def __init__(self, filename, data, stages):
 
